@@ -18,9 +18,16 @@ def dedupSorted : List Time → List Time
   | [a] => [a]
   | a :: b :: rest => if a = b then dedupSorted (b :: rest) else a :: dedupSorted (b :: rest)
 
+def insertT (x : Time) : List Time → List Time
+  | [] => [x]
+  | y :: ys => if x ≤ y then x :: y :: ys else y :: insertT x ys
+
+def sortT : List Time → List Time
+  | [] => []
+  | x :: xs => insertT x (sortT xs)
+
 /-- `sorted(set(timesteps))` -/
-def mkGrid (timesteps : List Time) : List Time :=
-  dedupSorted (timesteps.mergeSort (fun a b => decide (a ≤ b)))
+def mkGrid (timesteps : List Time) : List Time := dedupSorted (sortT timesteps)
 
 /-- `bisect_left(grid, t)` as a grid point: the first grid point `≥ t` -/
 def bucketOf (grid : List Time) (t : Time) : Option Time := grid.find? (fun g => decide (t ≤ g))
